@@ -120,6 +120,11 @@ pub struct RdInfo {
     pub io: bool,
     pub copy: bool,
     pub counter: bool,
+    /// bits consumed from the inner reader before the wrapper was created (wrapper "count+pre")
+    pub pre: usize,
+    /// byte stream with a partial trailing word: the adapter's documentation requires padding, so
+    /// only values and errors are checked there, not the positions reported after touching the tail
+    pub ragged: bool,
 }
 
 impl RdInfo {
@@ -421,6 +426,20 @@ macro_rules! copy_fn {
     }};
 }
 
+/// copy into 64-bit-word writers only (wrapped readers: keeps the number of monomorphised copies down)
+#[macro_export]
+macro_rules! copy_fn_min {
+    ($E:ty, $R:ty) => {{
+        fn f(r: &mut $R, n: u64, wd: u8, prefill: u8, from: bool) -> Result<Vec<u8>, String> {
+            match wd {
+                64 => $crate::rd::copy_case::<$E, $R, u64>(r, n, prefill, from),
+                _ => Err("wrapped readers copy into 64-bit writers only".into()),
+            }
+        }
+        f as fn(&mut $R, u64, u8, u8, bool) -> Result<Vec<u8>, String>
+    }};
+}
+
 /// Standard capabilities for a plain library reader type (Clone + io::Read + BitSeek).
 #[macro_export]
 macro_rules! full_caps {
@@ -471,8 +490,13 @@ fn base_info(e: End, kind: &'static str, backend: &'static str, wrapper: &'stati
         io: false,
         copy: false,
         counter: false,
+        pre: if wrapper == "count+pre" { PRE_SKIP } else { 0 },
+        ragged: backend.contains("+tail"),
     }
 }
+
+/// bits consumed before wrapping for the "count+pre" wrapper configuration
+pub const PRE_SKIP: usize = 13;
 
 macro_rules! mk_plain {
     // plain reader only (no wrappers, no dispatch instantiation)
@@ -488,14 +512,19 @@ macro_rules! mk_plain {
         let r: R0 = $r;
         match $wrapper {
             "" => mk::<$E, R0>(r, full_caps!($E, R0, true, Some($crate::disp::disp_read::<$E, R0>)), $info),
-            "count" => {
+            "count" | "count+pre" => {
                 type RC = CountBitReader<$E, R0>;
+                let mut r = r;
+                if $wrapper == "count+pre" {
+                    // the wrapper is created on a reader that has already consumed bits
+                    let _ = BitRead::<$E>::skip_bits(&mut r, PRE_SKIP);
+                }
                 let caps = Caps::<RC> {
                     clone: Some(|r: &RC| r.clone()),
                     io_read: None,
                     bit_pos: Some(|r: &mut RC| BitSeek::bit_pos(r).map_err(|e| format!("{e}"))),
                     set_bit_pos: Some(|r: &mut RC, p: u64| BitSeek::set_bit_pos(r, p).map_err(|e| format!("{e}"))),
-                    copy: Some($crate::copy_fn!($E, RC)),
+                    copy: Some($crate::copy_fn_min!($E, RC)),
                     counter: Some(|r: &RC| r.bits_read as u64),
                     disp: None,
                 };
@@ -508,7 +537,7 @@ macro_rules! mk_plain {
                     io_read: None,
                     bit_pos: None,
                     set_bit_pos: None,
-                    copy: Some($crate::copy_fn!($E, RD)),
+                    copy: Some($crate::copy_fn_min!($E, RD)),
                     counter: None,
                     disp: None,
                 };
@@ -520,7 +549,7 @@ macro_rules! mk_plain {
 }
 
 macro_rules! mk_backend {
-    ($E:ty, $W:ty, $mkreader:ident, $bytes:expr, $backend:expr, $info:expr, $wrapper:expr) => {{
+    ($E:ty, $W:ty, $mkreader:ident, $bytes:expr, $backend:expr, $info:expr, $wrapper:expr, $tail:expr) => {{
         let words: Vec<$W> = words_from_bytes::<$W>($bytes);
         match $backend {
             "memzx" => {
@@ -532,7 +561,9 @@ macro_rules! mk_backend {
                 $mkreader!(full, $E, MemWordReader<$W, Rc<[$W]>, false>, b, $info, $wrapper)
             }
             "cursor" => {
-                let b = WordAdapter::<$W, std::io::Cursor<Vec<u8>>>::new(std::io::Cursor::new($bytes.to_vec()));
+                let mut all = $bytes.to_vec();
+                all.extend_from_slice($tail);
+                let b = WordAdapter::<$W, std::io::Cursor<Vec<u8>>>::new(std::io::Cursor::new(all));
                 $mkreader!(min, $E, WordAdapter<$W, std::io::Cursor<Vec<u8>>>, b, $info, $wrapper)
             }
             _ => unreachable!(),
@@ -554,20 +585,29 @@ macro_rules! unbuf_reader {
 /// Build a reader of the given configuration over the byte image.
 /// Backends whose reader is not Clone ("vec", "slice", "bufreader") are built through ReplayRd.
 pub fn make_reader(e: End, kind: &'static str, backend: &'static str, wrapper: &'static str, bytes: &[u8]) -> Box<dyn Rd> {
+    make_reader_tail(e, kind, backend, wrapper, bytes, &[])
+}
+
+/// `tail`: extra bytes after the last whole word of a byte-stream backend ("cursor", "bufreader"):
+/// a partial trailing word, which is not data (reading it must be an error).
+pub fn make_reader_tail(e: End, kind: &'static str, backend: &'static str, wrapper: &'static str, bytes: &[u8], tail: &[u8]) -> Box<dyn Rd> {
+    assert!(tail.is_empty() || matches!(backend, "cursor" | "bufreader"));
+    let shown: &'static str = if tail.is_empty() { backend } else { crate::rdsys::leak(&format!("{}+tail{}", backend, tail.len())) };
     if matches!(backend, "bufreader" | "vec" | "slice") {
         let bytes: Vec<u8> = bytes.to_vec();
-        let build: Rc<dyn Fn() -> Box<dyn Rd>> = Rc::new(move || make_noclone(e, kind, backend, wrapper, &bytes));
+        let tail: Vec<u8> = tail.to_vec();
+        let build: Rc<dyn Fn() -> Box<dyn Rd>> = Rc::new(move || make_noclone(e, kind, backend, shown, wrapper, &bytes, &tail));
         return Box::new(ReplayRd::new(build));
     }
-    let info = base_info(e, kind, backend, wrapper);
+    let info = base_info(e, kind, shown, wrapper);
     macro_rules! by_e {
         ($E:ty) => {
             match kind {
-                "buf8" => mk_backend!($E, u8, buf_reader, bytes, backend, info, wrapper),
-                "buf16" => mk_backend!($E, u16, buf_reader, bytes, backend, info, wrapper),
-                "buf32" => mk_backend!($E, u32, buf_reader, bytes, backend, info, wrapper),
-                "buf64" => mk_backend!($E, u64, buf_reader, bytes, backend, info, wrapper),
-                "unbuf" => mk_backend!($E, u64, unbuf_reader, bytes, backend, info, wrapper),
+                "buf8" => mk_backend!($E, u8, buf_reader, bytes, backend, info, wrapper, tail),
+                "buf16" => mk_backend!($E, u16, buf_reader, bytes, backend, info, wrapper, tail),
+                "buf32" => mk_backend!($E, u32, buf_reader, bytes, backend, info, wrapper, tail),
+                "buf64" => mk_backend!($E, u64, buf_reader, bytes, backend, info, wrapper, tail),
+                "unbuf" => mk_backend!($E, u64, unbuf_reader, bytes, backend, info, wrapper, tail),
                 _ => unreachable!(),
             }
         };
@@ -578,9 +618,9 @@ pub fn make_reader(e: End, kind: &'static str, backend: &'static str, wrapper: &
     }
 }
 
-fn make_noclone(e: End, kind: &'static str, backend: &'static str, wrapper: &'static str, bytes: &[u8]) -> Box<dyn Rd> {
+fn make_noclone(e: End, kind: &'static str, backend: &'static str, shown: &'static str, wrapper: &'static str, bytes: &[u8], tail: &[u8]) -> Box<dyn Rd> {
     assert!(wrapper.is_empty());
-    let info = base_info(e, kind, backend, wrapper);
+    let info = base_info(e, kind, shown, wrapper);
     type BR = std::io::BufReader<std::io::Cursor<Vec<u8>>>;
     macro_rules! fin {
         ($E:ty, $R0:ty, $r:expr) => {{
@@ -602,7 +642,9 @@ fn make_noclone(e: End, kind: &'static str, backend: &'static str, wrapper: &'st
             match backend {
                 "bufreader" => {
                     // small BufReader capacity so that its own refill logic is exercised too
-                    let b = WordAdapter::<$W, BR>::new(std::io::BufReader::with_capacity(24, std::io::Cursor::new(bytes.to_vec())));
+                    let mut all = bytes.to_vec();
+                    all.extend_from_slice(tail);
+                    let b = WordAdapter::<$W, BR>::new(std::io::BufReader::with_capacity(24, std::io::Cursor::new(all)));
                     fin!($E, $RT<$E, WordAdapter<$W, BR>>, $RT::<$E, WordAdapter<$W, BR>>::new(b))
                 }
                 "vec" => {
